@@ -839,3 +839,73 @@ CASES += [
         let new_sz = (old_cap + 1).next_power_of_two();
         self.cap = new_sz;"""),
 ]
+
+VOF = "src/repr/var_order.rs"
+CASES += [
+    dict(name="vo-first-picks-later", file=VOF, rule="VO", props=["C01", "C02"], expect="VarOrder::first:by-level",
+         old="""                if pa < pb {
+                    a
+                } else {
+                    b
+                }""",
+         new="""                if pa < pb {
+                    b
+                } else {
+                    a
+                }"""),
+    dict(name="vo-first-constant-first", file=VOF, rule="VO", props=["C01", "C02"], expect="VarOrder::first:by-level",
+         old="""            (None, _) => b,
+            (_, None) => a,
+            (Some(va), Some(vb)) => {
+                let pa = self.get(va);
+                let pb = self.get(vb);
+                if pa < pb {
+                    a""",
+         new="""            (None, _) => a,
+            (_, None) => a,
+            (Some(va), Some(vb)) => {
+                let pa = self.get(va);
+                let pb = self.get(vb);
+                if pa < pb {
+                    a"""),
+    dict(name="vo-first-mirrored-ok", file=VOF, rule="VO", props=["C01", "C02"], expect=None,
+         old="""                if pa < pb {
+                    a
+                } else {
+                    b
+                }""",
+         new="""                if pb <= pa {
+                    b
+                } else {
+                    a
+                }"""),
+]
+
+CASES += [
+    dict(name="lc-cnf-condition-polarity-swapped", file=CNF, rule="LC", props=["C15"], expect="Cnf::condition:literal-status",
+         old="""                if l.label() == lit.label() && l.polarity() == lit.polarity() {
+                    // skip over this whole clause
+                    continue 'cnf;
+                } else if l.label() == lit.label() && l.polarity() != lit.polarity() {""",
+         new="""                if l.label() == lit.label() && l.polarity() != lit.polarity() {
+                    // skip over this whole clause
+                    continue 'cnf;
+                } else if l.label() == lit.label() && l.polarity() == lit.polarity() {"""),
+    dict(name="lc-cnf-condition-keeps-complement", file=CNF, rule="LC", props=["C15"], expect="Cnf::condition:literal-status",
+         old="""                } else if l.label() == lit.label() && l.polarity() != lit.polarity() {
+                    // skip over this literal
+                    continue 'clause;""",
+         new="""                } else if l.label() == lit.label() && l.polarity() != lit.polarity() && l.polarity() {
+                    // skip over this literal
+                    continue 'clause;"""),
+    dict(name="lc-cnf-eval-inverted", file=CNF, rule="LC", props=["C15"], expect="Cnf::eval:literal-status",
+         old="""                let assgn = assignment[lit.label().value() as usize];
+                if lit.polarity() == assgn {""",
+         new="""                let assgn = assignment[lit.label().value() as usize];
+                if lit.polarity() != assgn {"""),
+    dict(name="lc-cnf-condition-whole-literal-ok", file=CNF, rule="LC", props=["C15"], expect=None,
+         old="""                if l.label() == lit.label() && l.polarity() == lit.polarity() {
+                    // skip over this whole clause""",
+         new="""                if *l == lit {
+                    // skip over this whole clause"""),
+]
